@@ -100,6 +100,12 @@ pub fn opaque_closure_value() -> AnyClosure { unimplemented!() }
 pub assume_specification<T, A: core::alloc::Allocator>[VecDeque::<T, A>::is_empty](v: &VecDeque<T, A>) -> (r: bool)
     ensures r == (v@.len() == 0);
 
+/// R28: `X.drain(..)` consumed by `for_each`: every element is handed over, in order, and X is left empty
+#[verifier::external_body]
+pub fn take_all__<T>(v: &mut Vec<T>) -> (r: Vec<T>)
+    ensures r@ == old(v)@, final(v)@.len() == 0,
+{ unimplemented!() }
+
 /// R24: an `async { .. }` block that is not lifted: a future value of whatever type the context needs; creating it has no effect
 #[verifier::external_body]
 pub fn opaque_async_value<T>() -> T { unimplemented!() }
